@@ -469,3 +469,929 @@ Example guard_not_derivable :
   | None => False
   end.
 Proof. cbv zeta. split; [reflexivity|]. split; [reflexivity|]. vm_compute. split; [reflexivity|]. eexists. reflexivity. Qed.
+
+
+(* ====================================================================== *)
+(* Part 3b: values decoded by the UBJSON reference decoder are bounded      *)
+(* ====================================================================== *)
+(* (cv_size v <= length b does not hold for UBJSON: "[$Z#I" 10000 is an array
+   of 10000 nils in 7 bytes.  What holds: every announced count is below 2^63
+   (it is a non-negative int64 at most), every string / key is a piece of the
+   input, and every element of an uncounted container costs a byte.) *)
+Section UbjLim.
+  Import Ubjson.RoundtripProofs Ubjson.ConformanceProofs.
+
+  Lemma wraps_lt k z : 0 < k -> wraps k z < 2 ^ (k - 1).
+  Proof.
+    intro Hk. unfold wraps. set (m := z mod 2 ^ k).
+    assert (Hp : 0 < 2 ^ (k - 1)) by (apply Z.pow_pos_nonneg; lia).
+    assert (E : 2 ^ k = 2 * 2 ^ (k - 1)).
+    { replace k with (Z.succ (k - 1)) at 1 by lia. rewrite Z.pow_succ_r by lia. reflexivity. }
+    assert (Hm : 0 <= m < 2 ^ k) by (apply Z.mod_pos_bound; lia).
+    destruct (m <? 2 ^ (k - 1)) eqn:C; lia.
+  Qed.
+
+  Lemma ubj_len_lt b n r : ubj_len b = LVal n r -> all_bytes b = true -> n < 2 ^ 63.
+  Proof.
+    unfold ubj_len. destruct b as [|m r0]; [discriminate|]. intros H Hb.
+    rewrite all_bytes_cons in Hb. apply andb_true_iff in Hb as [_ Hb].
+    assert (G : forall (k : Z) (sg : bool), 0 < k <= 8 -> (sg = false -> k = 1) ->
+              match take k r0 with
+              | Some (a, r') => let v := if sg then wraps (8 * k) (be_dec a) else be_dec a in
+                                if v <? 0 then LBad else LVal v r'
+              | None => LTrunc end = LVal n r -> n < 2 ^ 63).
+    { intros k sg Hk Hsg. destruct (take k r0) as [[a r']|] eqn:Et; [|discriminate]. cbv zeta.
+      destruct sg.
+      - destruct (wraps (8 * k) (be_dec a) <? 0); [discriminate|]. intro E. inversion E; subst.
+        pose proof (wraps_lt (8 * k) (be_dec a) ltac:(lia)) as Hw.
+        eapply Z.lt_le_trans; [exact Hw|]. apply Z.pow_le_mono_r; lia.
+      - rewrite (Hsg eq_refl) in Et. destruct (be_dec a <? 0); [discriminate|]. intro E. inversion E; subst.
+        destruct (take_bytes _ _ _ _ Et Hb) as [Hba _].
+        apply take_1_inv in Et as (x & _ & ->).
+        pose proof (be_dec_bound [x] Hba) as Hbd. cbn [length] in Hbd. change (256 ^ Z.of_nat 1) with 256 in Hbd.
+        change (2 ^ 63) with 9223372036854775808. lia. }
+    destruct (m =? mi); [apply (G 1 true); [lia|discriminate|exact H]|].
+    destruct (m =? mU); [apply (G 1 false); [lia|reflexivity|exact H]|].
+    destruct (m =? mI); [apply (G 2 true); [lia|discriminate|exact H]|].
+    destruct (m =? ml); [apply (G 4 true); [lia|discriminate|exact H]|].
+    destruct (m =? mL); [apply (G 8 true); [lia|discriminate|exact H]|]. discriminate.
+  Qed.
+
+  Lemma ukey_facts b k r' : ukey b = inl (Some (k, r')) -> all_bytes b = true ->
+    all_bytes r' = true /\ (length k + length r' + 2 <= length b)%nat.
+  Proof.
+    intros H Hb. apply ukey_inv in H as (klen & r1 & Hl & Ht).
+    destruct (ubj_len_facts _ _ _ Hl Hb) as (Hb1 & _ & Hlen & _).
+    destruct (take_bytes _ _ _ _ Ht Hb1) as [_ Hbr].
+    apply take_some in Ht as (_ & _ & _ & _ & E & _). subst r1. rewrite zlen_app in Hlen.
+    split; [exact Hbr|]. unfold zlen in Hlen. lia.
+  Qed.
+
+  Notation lim := (cv_lim (2 ^ 63)).
+  Notation mlim := (fun kv : bytes * cvalue => (zlen (fst kv) <? 2 ^ 63) && lim (snd kv)).
+
+  (* [pl] reads one value: the rest is a suffix, [d] bytes shorter at least *)
+  Definition lspec (d : nat) (pl : bytes -> ref_result) : Prop :=
+    forall b v rest, pl b = RValue v rest -> all_bytes b = true -> zlen b < 2 ^ 63 ->
+      all_bytes rest = true /\ (length rest + d <= length b)%nat /\ lim v = true.
+
+  Lemma arr_n_lim pl d : lspec d pl -> forall g n b acc v rest,
+    arr_n pl g n b acc = RValue v rest -> all_bytes b = true -> zlen b < 2 ^ 63 ->
+    exists vs, v = CArr (rev acc ++ vs) /\ zlen vs <= Z.max 0 n /\ all_bytes rest = true /\
+               (length rest <= length b)%nat /\ forallb lim vs = true.
+  Proof.
+    intro Hpl. induction g as [|g IH]; intros n b acc v rest H Hb Hsz.
+    - rewrite arr_n_O in H. destruct (n <=? 0); [|discriminate]. inversion H; subst.
+      exists []. rewrite app_nil_r. repeat split; try assumption; try lia. change (zlen (@nil cvalue)) with 0. lia.
+    - rewrite arr_n_S in H. destruct (n <=? 0) eqn:En.
+      { inversion H; subst. exists []. rewrite app_nil_r. repeat split; try assumption; try lia.
+        change (zlen (@nil cvalue)) with 0. lia. }
+      destruct (pl b) as [v1 r1| | |] eqn:E1; try discriminate.
+      destruct (Hpl _ _ _ E1 Hb Hsz) as (Hb1 & Hl1 & Hv1).
+      destruct (IH _ _ _ _ _ H Hb1 ltac:(unfold zlen in *; lia)) as (vs & -> & Hn & Hbr & Hlr & Hvs).
+      exists (v1 :: vs). cbn [rev]. rewrite <- app_assoc. cbn [app forallb]. rewrite Hv1, Hvs.
+      repeat split; try assumption; try lia. rewrite zlen_cons. lia.
+  Qed.
+
+  Lemma obj_n_lim pl d : lspec d pl -> forall g n b acc v rest,
+    obj_n pl g n b acc = RValue v rest -> all_bytes b = true -> zlen b < 2 ^ 63 ->
+    exists kvs, v = CObj (rev acc ++ kvs) /\ zlen kvs <= Z.max 0 n /\ all_bytes rest = true /\
+               (length rest <= length b)%nat /\ forallb mlim kvs = true.
+  Proof.
+    intro Hpl. induction g as [|g IH]; intros n b acc v rest H Hb Hsz.
+    - rewrite obj_n_O in H. destruct (n <=? 0); [|discriminate]. inversion H; subst.
+      exists []. rewrite app_nil_r. repeat split; try assumption; try lia.
+      change (zlen (@nil (bytes * cvalue))) with 0. lia.
+    - rewrite obj_n_S in H. destruct (n <=? 0) eqn:En.
+      { inversion H; subst. exists []. rewrite app_nil_r. repeat split; try assumption; try lia.
+        change (zlen (@nil (bytes * cvalue))) with 0. lia. }
+      destruct (ukey b) as [[[k r0]|]|e] eqn:Ek; try discriminate.
+      2:{ destruct (ukey_cases b) as [(k' & r' & E')|(e' & E' & Hne)]; rewrite Ek in E'; [discriminate|].
+          inversion E'; subst e'. subst e. exfalso. eapply Hne. reflexivity. }
+      destruct (ukey_facts _ _ _ Ek Hb) as (Hb0 & Hl0).
+      destruct (pl r0) as [v1 r1| | |] eqn:E1; try discriminate.
+      destruct (Hpl _ _ _ E1 Hb0 ltac:(unfold zlen in *; lia)) as (Hb1 & Hl1 & Hv1).
+      destruct (IH _ _ _ _ _ H Hb1 ltac:(unfold zlen in *; lia)) as (kvs & -> & Hn & Hbr & Hlr & Hvs).
+      exists ((k, v1) :: kvs). cbn [rev]. rewrite <- app_assoc. cbn [app forallb fst snd]. rewrite Hv1, Hvs.
+      repeat split; try assumption; try lia; [rewrite zlen_cons; lia|].
+      rewrite andb_true_r. unfold zlen in *. lia.
+  Qed.
+
+  Lemma arr_plain_lim val : lspec 1 val -> forall g b acc v rest,
+    arr_plain val g b acc = RValue v rest -> all_bytes b = true -> zlen b < 2 ^ 63 ->
+    exists vs, v = CArr (rev acc ++ vs) /\ all_bytes rest = true /\
+               (length vs + length rest + 1 <= length b)%nat /\ forallb lim vs = true.
+  Proof.
+    intro Hval. induction g as [|g IH]; intros b acc v rest H Hb Hsz; [destruct b; discriminate H|].
+    destruct b as [|h r]; [discriminate H|]. rewrite arr_plain_S in H.
+    pose proof Hb as Hb'. rewrite all_bytes_cons in Hb'. apply andb_true_iff in Hb' as [_ Hbr].
+    assert (Hszr : zlen r < 2 ^ 63) by (rewrite zlen_cons in Hsz; lia).
+    destruct (h =? mArrE).
+    { inversion H; subst. exists []. rewrite app_nil_r. repeat split; try assumption. cbn [length]. lia. }
+    destruct (h =? mN).
+    { destruct (IH _ _ _ _ H Hbr Hszr) as (vs & -> & Hb1 & Hl & Hvs). exists vs.
+      repeat split; try assumption. cbn [length]. lia. }
+    destruct (val (h :: r)) as [v1 r1| | |] eqn:E1; try discriminate.
+    destruct (Hval _ _ _ E1 Hb Hsz) as (Hb1 & Hl1 & Hv1).
+    destruct (IH _ _ _ _ H Hb1 ltac:(unfold zlen in *; lia)) as (vs & -> & Hbr2 & Hl & Hvs).
+    exists (v1 :: vs). cbn [rev]. rewrite <- app_assoc. cbn [app forallb]. rewrite Hv1, Hvs.
+    repeat split; try assumption. cbn [length] in *. lia.
+  Qed.
+
+  Lemma obj_plain_lim val : lspec 1 val -> forall g b acc v rest,
+    obj_plain val g b acc = RValue v rest -> all_bytes b = true -> zlen b < 2 ^ 63 ->
+    exists kvs, v = CObj (rev acc ++ kvs) /\ all_bytes rest = true /\
+               (length kvs + length rest + 1 <= length b)%nat /\ forallb mlim kvs = true.
+  Proof.
+    intro Hval. induction g as [|g IH]; intros b acc v rest H Hb Hsz; [destruct b; discriminate H|].
+    destruct b as [|h r]; [discriminate H|]. rewrite obj_plain_S in H.
+    pose proof Hb as Hb'. rewrite all_bytes_cons in Hb'. apply andb_true_iff in Hb' as [_ Hbr].
+    destruct (h =? mObjE).
+    { inversion H; subst. exists []. rewrite app_nil_r. repeat split; try assumption. cbn [length]. lia. }
+    destruct (ukey (h :: r)) as [[[k r0]|]|e] eqn:Ek; try discriminate.
+    2:{ destruct (ukey_cases (h :: r)) as [(k' & r' & E')|(e' & E' & Hne)]; rewrite Ek in E'; [discriminate|].
+        inversion E'; subst e'. subst e. exfalso. eapply Hne. reflexivity. }
+    destruct (ukey_facts _ _ _ Ek Hb) as (Hb0 & Hl0).
+    destruct (val r0) as [v1 r1| | |] eqn:E1; try discriminate.
+    destruct (Hval _ _ _ E1 Hb0 ltac:(unfold zlen in *; lia)) as (Hb1 & Hl1 & Hv1).
+    destruct (IH _ _ _ _ H Hb1 ltac:(unfold zlen in *; lia)) as (kvs & -> & Hbr2 & Hl & Hvs).
+    exists ((k, v1) :: kvs). cbn [rev]. rewrite <- app_assoc. cbn [app forallb fst snd]. rewrite Hv1, Hvs.
+    repeat split; try assumption; [cbn [length] in *; lia|].
+    rewrite andb_true_r. unfold zlen in *. lia.
+  Qed.
+
+  Definition pspec (f : nat) : Prop := forall m, is_value_marker m = true -> lspec 0 (ubj_payload f m).
+
+  Lemma uvalue_lim f : pspec f -> forall g, lspec 1 (uvalue f g).
+  Proof.
+    intros Hf. induction g as [|g IH]; intros b v rest H Hb Hsz; [destruct b; discriminate H|].
+    destruct b as [|m r]; [discriminate H|]. rewrite uvalue_S in H.
+    pose proof Hb as Hb'. rewrite all_bytes_cons in Hb'. apply andb_true_iff in Hb' as [_ Hbr].
+    assert (Hszr : zlen r < 2 ^ 63) by (rewrite zlen_cons in Hsz; lia).
+    destruct (m =? mN).
+    { destruct (IH _ _ _ H Hbr Hszr) as (H1 & H2 & H3). repeat split; try assumption. cbn [length]. lia. }
+    destruct (is_value_marker m) eqn:Hm; [|discriminate].
+    destruct (Hf m Hm _ _ _ H Hbr Hszr) as (H1 & H2 & H3). repeat split; try assumption. cbn [length]. lia.
+  Qed.
+
+  Ltac fixed_case lem H Hb :=
+    rewrite lem in H;
+    match type of H with
+    | match take ?k ?b with _ => _ end = _ =>
+        let Et := fresh "Et" in
+        destruct (take k b) as [[?a ?r]|] eqn:Et; [|discriminate H];
+        inversion H; subst;
+        let Hbr := fresh "Hbr" in
+        destruct (take_bytes _ _ _ _ Et Hb) as [_ Hbr];
+        let Hl := fresh "Hl" in
+        pose proof (take_len _ _ _ _ Et) as [Hl _];
+        split; [exact Hbr|split; [lia|reflexivity]]
+    end.
+
+  Theorem payload_lim : forall f, pspec f.
+  Proof.
+    induction f as [|f IH]; intros m Hm b v rest H Hb Hsz; [discriminate H|].
+    assert (Hval : forall g, lspec 1 (uvalue f g)) by (apply uvalue_lim; exact IH).
+    apply value_marker_cases in Hm.
+    destruct Hm as [->|[->|[->|[->|[->|[->|[->|[->|[->|[->|[->|[->|[->|[->| ->]]]]]]]]]]]]]].
+    - rewrite pl_Z in H. inversion H; subst. split; [exact Hb|split; [lia|reflexivity]].
+    - rewrite pl_T in H. inversion H; subst. split; [exact Hb|split; [lia|reflexivity]].
+    - rewrite pl_F in H. inversion H; subst. split; [exact Hb|split; [lia|reflexivity]].
+    - fixed_case pl_i H Hb.
+    - fixed_case pl_U H Hb.
+    - fixed_case pl_I H Hb.
+    - fixed_case pl_l H Hb.
+    - fixed_case pl_L H Hb.
+    - fixed_case pl_d H Hb.
+    - fixed_case pl_D H Hb.
+    - (* H *)
+      rewrite pl_H in H. unfold ustr in H. destruct (ubj_len b) as [n r1| |] eqn:El; try discriminate.
+      destruct (take n r1) as [[a r']|] eqn:Et; [|discriminate]. inversion H; subst.
+      destruct (ubj_len_facts _ _ _ El Hb) as (Hb1 & _ & Hl1 & _).
+      destruct (take_bytes _ _ _ _ Et Hb1) as [_ Hbr]. apply take_some in Et as (_ & Hn & _ & _ & E & Ha).
+      subst r1. rewrite zlen_app in *. split; [exact Hbr|]. cbn [cv_lim]. unfold zlen in *. split; lia.
+    - fixed_case pl_C H Hb.
+    - (* S *)
+      rewrite pl_S in H. unfold ustr in H. destruct (ubj_len b) as [n r1| |] eqn:El; try discriminate.
+      destruct (take n r1) as [[a r']|] eqn:Et; [|discriminate]. inversion H; subst.
+      destruct (ubj_len_facts _ _ _ El Hb) as (Hb1 & _ & Hl1 & _).
+      destruct (take_bytes _ _ _ _ Et Hb1) as [_ Hbr]. apply take_some in Et as (_ & Hn & _ & _ & E & Ha).
+      subst r1. rewrite zlen_app in *. split; [exact Hbr|]. cbn [cv_lim]. unfold zlen in *. split; lia.
+    - (* object *)
+      destruct b as [|h r]; [discriminate H|].
+      pose proof Hb as Hb'. rewrite all_bytes_cons in Hb'. apply andb_true_iff in Hb' as [_ Hbr].
+      assert (Hszr : zlen r < 2 ^ 63) by (rewrite zlen_cons in Hsz; lia).
+      destruct (h =? mType) eqn:Ety.
+      { assert (h = mType) by lia. subst h.
+        destruct r as [|t [|c r2]]; try discriminate H.
+        { exfalso. revert H. change (ubj_payload (S f) mObjS [mType; t]) with
+            (if negb (is_value_marker t) then RMalformed else RTruncated).
+          destruct (negb (is_value_marker t)); discriminate. }
+        rewrite pl_obj_typed' in H.
+        destruct (is_value_marker t) eqn:Hmt; [|discriminate]. cbn [negb] in H.
+        destruct (c =? mCount) eqn:Ec; [|discriminate]. cbn [negb] in H.
+        destruct (ubj_len r2) as [n r3| |] eqn:El; try discriminate.
+        assert (Hbr2 : all_bytes r2 = true).
+        { rewrite !all_bytes_cons in Hbr. apply andb_true_iff in Hbr as [_ Hbr].
+          apply andb_true_iff in Hbr as [_ Hbr]. exact Hbr. }
+        destruct (ubj_len_facts _ _ _ El Hbr2) as (Hb3 & Hn0 & Hl3 & _).
+        pose proof (ubj_len_lt _ _ _ El Hbr2) as Hn.
+        rewrite !zlen_cons in Hszr.
+        destruct (obj_n_lim _ 0 (IH t Hmt) _ _ _ _ _ _ H Hb3 ltac:(lia)) as (kvs & -> & Hk & Hbrest & Hlr & Hvs).
+        cbn [rev app cv_lim]. split; [exact Hbrest|]. split; [cbn [length]; unfold zlen in *; lia|].
+        apply andb_true_iff. split; [lia|exact Hvs]. }
+      destruct (h =? mCount) eqn:Ecnt.
+      { assert (h = mCount) by lia. subst h. rewrite pl_obj_counted in H.
+        destruct (ubj_len r) as [n r1| |] eqn:El; try discriminate.
+        destruct (ubj_len_facts _ _ _ El Hbr) as (Hb1 & Hn0 & Hl1 & _).
+        pose proof (ubj_len_lt _ _ _ El Hbr) as Hn.
+        destruct (obj_n_lim _ 1 (Hval f) _ _ _ _ _ _ H Hb1 ltac:(lia)) as (kvs & -> & Hk & Hbrest & Hlr & Hvs).
+        cbn [rev app cv_lim]. split; [exact Hbrest|]. split; [cbn [length]; unfold zlen in *; lia|].
+        apply andb_true_iff. split; [lia|exact Hvs]. }
+      rewrite (pl_obj_plain f h r Ety Ecnt) in H.
+      destruct (obj_plain_lim _ (Hval f) _ _ _ _ _ H Hb Hsz) as (kvs & -> & Hbrest & Hlr & Hvs).
+      cbn [rev app cv_lim]. split; [exact Hbrest|]. split; [lia|].
+      apply andb_true_iff. split; [unfold zlen in *; lia|exact Hvs].
+    - (* array *)
+      destruct b as [|h r]; [discriminate H|].
+      pose proof Hb as Hb'. rewrite all_bytes_cons in Hb'. apply andb_true_iff in Hb' as [_ Hbr].
+      assert (Hszr : zlen r < 2 ^ 63) by (rewrite zlen_cons in Hsz; lia).
+      destruct (h =? mType) eqn:Ety.
+      { assert (h = mType) by lia. subst h.
+        destruct r as [|t [|c r2]]; try discriminate H.
+        { exfalso. revert H. change (ubj_payload (S f) mArrS [mType; t]) with
+            (if negb (is_value_marker t) then RMalformed else RTruncated).
+          destruct (negb (is_value_marker t)); discriminate. }
+        rewrite pl_arr_typed' in H.
+        destruct (is_value_marker t) eqn:Hmt; [|discriminate]. cbn [negb] in H.
+        destruct (c =? mCount) eqn:Ec; [|discriminate]. cbn [negb] in H.
+        destruct (ubj_len r2) as [n r3| |] eqn:El; try discriminate.
+        destruct ((100000 <? n) && ((t =? mZ) || (t =? mT) || (t =? mF))); [discriminate|].
+        assert (Hbr2 : all_bytes r2 = true).
+        { rewrite !all_bytes_cons in Hbr. apply andb_true_iff in Hbr as [_ Hbr].
+          apply andb_true_iff in Hbr as [_ Hbr]. exact Hbr. }
+        destruct (ubj_len_facts _ _ _ El Hbr2) as (Hb3 & Hn0 & Hl3 & _).
+        pose proof (ubj_len_lt _ _ _ El Hbr2) as Hn.
+        rewrite !zlen_cons in Hszr.
+        destruct (arr_n_lim _ 0 (IH t Hmt) _ _ _ _ _ _ H Hb3 ltac:(lia)) as (vs & -> & Hk & Hbrest & Hlr & Hvs).
+        cbn [rev app cv_lim]. split; [exact Hbrest|]. split; [cbn [length]; unfold zlen in *; lia|].
+        apply andb_true_iff. split; [lia|exact Hvs]. }
+      destruct (h =? mCount) eqn:Ecnt.
+      { assert (h = mCount) by lia. subst h. rewrite pl_arr_counted in H.
+        destruct (ubj_len r) as [n r1| |] eqn:El; try discriminate.
+        destruct (ubj_len_facts _ _ _ El Hbr) as (Hb1 & Hn0 & Hl1 & _).
+        pose proof (ubj_len_lt _ _ _ El Hbr) as Hn.
+        destruct (arr_n_lim _ 1 (Hval f) _ _ _ _ _ _ H Hb1 ltac:(lia)) as (vs & -> & Hk & Hbrest & Hlr & Hvs).
+        cbn [rev app cv_lim]. split; [exact Hbrest|]. split; [cbn [length]; unfold zlen in *; lia|].
+        apply andb_true_iff. split; [lia|exact Hvs]. }
+      rewrite (pl_arr_plain f h r Ety Ecnt) in H.
+      destruct (arr_plain_lim _ (Hval f) _ _ _ _ _ H Hb Hsz) as (vs & -> & Hbrest & Hlr & Hvs).
+      cbn [rev app cv_lim]. split; [exact Hbrest|]. split; [lia|].
+      apply andb_true_iff. split; [unfold zlen in *; lia|exact Hvs].
+  Qed.
+
+  Lemma ubj_value_lim : forall g b v rest, ubj_value g b = RValue v rest ->
+    all_bytes b = true -> zlen b < 2 ^ 63 -> lim v = true.
+  Proof.
+    induction g as [|g IH]; intros b v rest H Hb Hsz; [discriminate H|].
+    destruct b as [|m r]; [discriminate H|]. rewrite ubj_value_S in H.
+    pose proof Hb as Hb'. rewrite all_bytes_cons in Hb'. apply andb_true_iff in Hb' as [_ Hbr].
+    assert (Hszr : zlen r < 2 ^ 63) by (rewrite zlen_cons in Hsz; lia).
+    destruct (m =? mN); [eapply IH; eassumption|].
+    destruct (is_value_marker m) eqn:Hm; [|discriminate].
+    destruct (payload_lim _ m Hm _ _ _ H Hbr Hszr) as (_ & _ & Hv). exact Hv.
+  Qed.
+End UbjLim.
+
+Theorem ubj_decode_lim : forall b v rest, ubj_decode b = RValue v rest ->
+  all_bytes b = true -> (zlen b <=? MaxInt64) = true -> cv_lim (2 ^ 63) v = true.
+Proof.
+  intros b v rest H Hb Hsz. unfold ubj_decode in H. eapply ubj_value_lim; [exact H|exact Hb|].
+  unfold Cbor.ConformanceProofs.MaxInt64 in Hsz. change (2 ^ 63) with 9223372036854775808. lia.
+Qed.
+Print Assumptions ubj_decode_lim.
+
+(* ====================================================================== *)
+(* Part 3c: a value decoded by the JSON reference decoder is not larger     *)
+(*          than the text it was decoded from                               *)
+(* ====================================================================== *)
+Section JsonSize.
+  Notation skip_ws_length := Json.SpecProofs.skip_ws_length.
+
+  Lemma match_lit_len name : forall b rest, match_lit name b = LitOk rest ->
+    length b = (length name + length rest)%nat.
+  Proof.
+    induction name as [|x name IH]; intros b rest H; cbn [match_lit] in H.
+    - inversion H; reflexivity.
+    - destruct b as [|y b']; [discriminate|]. destruct (x =? y); [|discriminate].
+      apply IH in H. cbn [length]. lia.
+  Qed.
+
+  Lemma lit_value_size name v0 b v rest : lit_value name v0 b = RValue v rest -> name <> [] ->
+    v = v0 /\ (length rest + 1 <= length b)%nat.
+  Proof.
+    unfold lit_value. intros H Hne. destruct (match_lit name b) as [r| |] eqn:E; try discriminate.
+    inversion H; subst. apply match_lit_len in E. split; [reflexivity|].
+    destruct name; [congruence|]. cbn [length] in E. lia.
+  Qed.
+
+  Lemma hex4_len b code rest : hex4 b = HexOk code rest -> length b = (4 + length rest)%nat.
+  Proof.
+    unfold hex4. destruct b as [|h1 [|h2 [|h3 [|h4 r]]]]; try (destruct (forallb is_hex _); discriminate).
+    destruct (hexval h1); [|discriminate]. destruct (hexval h2); [|discriminate].
+    destruct (hexval h3); [|discriminate]. destruct (hexval h4); [|discriminate].
+    intro H; inversion H; subst. reflexivity.
+  Qed.
+
+  Lemma low_escape_len b lo r : low_escape b = Some (lo, r) -> (length r <= length b)%nat.
+  Proof.
+    unfold low_escape. destruct b as [|c1 [|c2 r0]]; try discriminate.
+    destruct ((c1 =? 92) && (c2 =? 117)); [|discriminate].
+    destruct (hex4 r0) as [code r1| |] eqn:E; try discriminate.
+    destruct (is_low_surrogate code); [|discriminate]. intro H; inversion H; subst.
+    apply hex4_len in E. cbn [length]. lia.
+  Qed.
+
+  Lemma encode_rune_len c : (length (encode_rune c) <= 4)%nat.
+  Proof.
+    unfold encode_rune. cbv zeta.
+    repeat match goal with |- context [if ?c then _ else _] => destruct c end; cbn [length]; lia.
+  Qed.
+
+  Lemma json_escape_len r out rest : json_escape r = ChOk out rest ->
+    (length out + length rest <= length r)%nat.
+  Proof.
+    unfold json_escape. destruct r as [|x r2]; [discriminate|].
+    destruct (x =? 34); [intro H; inversion H; subst; cbn [length]; lia|].
+    destruct (x =? 92); [intro H; inversion H; subst; cbn [length]; lia|].
+    destruct (x =? 47); [intro H; inversion H; subst; cbn [length]; lia|].
+    destruct (x =? 98); [intro H; inversion H; subst; cbn [length]; lia|].
+    destruct (x =? 102); [intro H; inversion H; subst; cbn [length]; lia|].
+    destruct (x =? 110); [intro H; inversion H; subst; cbn [length]; lia|].
+    destruct (x =? 114); [intro H; inversion H; subst; cbn [length]; lia|].
+    destruct (x =? 116); [intro H; inversion H; subst; cbn [length]; lia|].
+    destruct (x =? 117); [|discriminate].
+    destruct (hex4 r2) as [code r3| |] eqn:E; try discriminate. apply hex4_len in E.
+    destruct (is_high_surrogate code).
+    - destruct (low_escape r3) as [[lo r4]|] eqn:EL.
+      + apply low_escape_len in EL. intro H; inversion H; subst.
+        pose proof (encode_rune_len (utf16_decode code lo)). cbn [length]. lia.
+      + intro H; inversion H; subst. pose proof (encode_rune_len rune_error). cbn [length]. lia.
+    - destruct (is_low_surrogate code); intro H; inversion H; subst.
+      + pose proof (encode_rune_len rune_error). cbn [length]. lia.
+      + pose proof (encode_rune_len code). cbn [length]. lia.
+  Qed.
+
+  Lemma json_char_len b out rest : json_char b = ChOk out rest ->
+    (length out + length rest <= length b)%nat.
+  Proof.
+    unfold json_char. destruct b as [|c r]; [discriminate|].
+    destruct (c =? 92).
+    - intro H. apply json_escape_len in H. cbn [length]. lia.
+    - destruct ((c =? 34) || (c <? 32)); [discriminate|]. intro H; inversion H; subst. cbn [length]. lia.
+  Qed.
+
+  Lemma json_string_loop_len : forall f b racc s rest, json_string_loop f b racc = StrOk s rest ->
+    (length s + length rest + 1 <= length racc + length b)%nat.
+  Proof.
+    induction f as [|f IH]; intros b racc s rest H; [discriminate|]. cbn [json_string_loop] in H.
+    destruct b as [|c r]; [discriminate|].
+    destruct (c =? 34).
+    - inversion H; subst. rewrite rev_length. cbn [length]. lia.
+    - destruct (json_char (c :: r)) as [out rest'| |] eqn:E; try discriminate.
+      apply json_char_len in E. apply IH in H. rewrite app_length, rev_length in H. lia.
+  Qed.
+
+  Lemma json_string_len b s rest : json_string b = StrOk s rest ->
+    (length s + length rest + 1 <= length b)%nat.
+  Proof. unfold json_string. intro H. apply json_string_loop_len in H. cbn [length] in H. lia. Qed.
+
+  Lemma json_number_len b lit isint rest : json_number b = NumOk lit isint rest ->
+    (length rest + 1 <= length b)%nat.
+  Proof.
+    intro H. pose proof (Json.SpecProofs.json_number_inv _ _ _ _ H) as (E & _).
+    assert (Hne : lit <> []).
+    { revert H. unfold json_number.
+      destruct (match b with c :: r => if c =? 45 then ([c], r) else ([], b) | [] => ([], b) end) as [sg b1].
+      destruct (lex_int b1) as [i b2| |] eqn:Ei; try discriminate.
+      destruct (lex_frac b2) as [fr b3| |]; try discriminate.
+      destruct (lex_exp b3) as [ex b4| |]; try discriminate.
+      intro H. inversion H.
+      assert (Hi : i <> []).
+      { unfold lex_int in Ei. destruct b1 as [|c r]; [discriminate|].
+        destruct (c =? 48); [inversion Ei; discriminate|].
+        destruct ((49 <=? c) && (c <=? 57)); [|discriminate].
+        destruct (span_digits r). inversion Ei. discriminate. }
+      destruct sg; [|discriminate]. destruct i; [congruence|discriminate]. }
+    subst b. rewrite app_length. destruct lit; [congruence|]. cbn [length]. lia.
+  Qed.
+
+  Lemma cv_size_arr_nil : cv_size (CArr []) = 1%nat.
+  Proof. reflexivity. Qed.
+  Lemma cv_size_arr_cons v vs : cv_size (CArr (v :: vs)) = (cv_size v + cv_size (CArr vs))%nat.
+  Proof. cbn [Cbor.ComposeProofs.cv_size map]. rewrite Cbor.ComposeProofs.list_sum_cons. lia. Qed.
+  Lemma cv_size_obj_nil : cv_size (CObj []) = 1%nat.
+  Proof. reflexivity. Qed.
+  Lemma cv_size_obj_cons k v kvs :
+    cv_size (CObj ((k, v) :: kvs)) = (S (length k) + cv_size v + cv_size (CObj kvs))%nat.
+  Proof. cbn [Cbor.ComposeProofs.cv_size map]. rewrite Cbor.ComposeProofs.list_sum_cons. cbn [fst snd]. lia. Qed.
+
+  Definition jsize (value : bytes -> ref_result) : Prop :=
+    forall b v r, value b = RValue v r -> (cv_size v + length r <= length b)%nat.
+
+  Lemma json_elems_size value : jsize value -> forall g b acc v rest,
+    json_elems value g b acc = RValue v rest ->
+    exists vs, v = CArr (rev acc ++ vs) /\ (cv_size (CArr vs) + length rest <= length b)%nat.
+  Proof.
+    intro Hv. induction g as [|g IH]; intros b acc v rest H; [discriminate|]. cbn [json_elems] in H.
+    destruct (value b) as [v1 r| | |] eqn:E1; try discriminate. apply Hv in E1.
+    pose proof (skip_ws_length r) as Hs.
+    destruct (skip_ws r) as [|c r']; [discriminate|]. cbn [length] in Hs.
+    destruct (c =? 44).
+    - destruct (IH _ _ _ _ H) as (vs & -> & Hsz). exists (v1 :: vs). cbn [rev]. rewrite <- app_assoc.
+      split; [reflexivity|]. rewrite cv_size_arr_cons. lia.
+    - destruct (c =? 93); [|discriminate]. inversion H; subst. exists [v1]. cbn [rev].
+      split; [reflexivity|]. rewrite cv_size_arr_cons, cv_size_arr_nil. lia.
+  Qed.
+
+  Lemma json_members_size value : jsize value -> forall g b acc v rest,
+    json_members value g b acc = RValue v rest ->
+    exists kvs, v = CObj (rev acc ++ kvs) /\ (cv_size (CObj kvs) + length rest <= length b)%nat.
+  Proof.
+    intro Hv. induction g as [|g IH]; intros b acc v rest H; [discriminate|]. cbn [json_members] in H.
+    pose proof (skip_ws_length b) as Hs0.
+    destruct (skip_ws b) as [|q r0]; [discriminate|]. cbn [length] in Hs0.
+    destruct (negb (q =? 34)); [discriminate|].
+    destruct (json_string r0) as [k r1| |] eqn:Ek; try discriminate. apply json_string_len in Ek.
+    pose proof (skip_ws_length r1) as Hs1.
+    destruct (skip_ws r1) as [|c r2]; [discriminate|]. cbn [length] in Hs1.
+    destruct (negb (c =? 58)); [discriminate|].
+    destruct (value r2) as [v1 r3| | |] eqn:E1; try discriminate. apply Hv in E1.
+    pose proof (skip_ws_length r3) as Hs3.
+    destruct (skip_ws r3) as [|d r4]; [discriminate|]. cbn [length] in Hs3.
+    destruct (d =? 44).
+    - destruct (IH _ _ _ _ H) as (kvs & -> & Hsz). exists ((k, v1) :: kvs). cbn [rev]. rewrite <- app_assoc.
+      split; [reflexivity|]. rewrite cv_size_obj_cons. lia.
+    - destruct (d =? 125); [|discriminate]. inversion H; subst. exists [(k, v1)]. cbn [rev].
+      split; [reflexivity|]. rewrite cv_size_obj_cons, cv_size_obj_nil. lia.
+  Qed.
+
+  Theorem json_ref_size pf : forall f, jsize (json_ref pf f).
+  Proof.
+    induction f as [|f IH]; intros b v rest H; [discriminate|].
+    rewrite Json.RoundtripProofs.json_ref_S in H.
+    pose proof (skip_ws_length b) as Hs0.
+    destruct (skip_ws b) as [|c r]; [discriminate|]. cbn [length] in Hs0.
+    destruct (c =? 110).
+    { apply lit_value_size in H as [-> Hl]; [|discriminate]. cbn [Cbor.ComposeProofs.cv_size length] in *. lia. }
+    destruct (c =? 116).
+    { apply lit_value_size in H as [-> Hl]; [|discriminate]. cbn [Cbor.ComposeProofs.cv_size length] in *. lia. }
+    destruct (c =? 102).
+    { apply lit_value_size in H as [-> Hl]; [|discriminate]. cbn [Cbor.ComposeProofs.cv_size length] in *. lia. }
+    destruct (c =? 34).
+    { destruct (json_string r) as [s r1| |] eqn:Es; try discriminate. inversion H; subst.
+      apply json_string_len in Es. cbn [Cbor.ComposeProofs.cv_size]. lia. }
+    destruct (c =? 91).
+    { pose proof (skip_ws_length r) as Hs1.
+      destruct (skip_ws r) as [|d r']; [discriminate|]. cbn [length] in Hs1.
+      destruct (d =? 93).
+      - inversion H; subst. rewrite cv_size_arr_nil. lia.
+      - destruct (json_elems_size _ IH _ _ _ _ _ H) as (vs & -> & Hsz). cbn [rev app]. lia. }
+    destruct (c =? 123).
+    { pose proof (skip_ws_length r) as Hs1.
+      destruct (skip_ws r) as [|d r']; [discriminate|]. cbn [length] in Hs1.
+      destruct (d =? 125).
+      - inversion H; subst. rewrite cv_size_obj_nil. lia.
+      - destruct (json_members_size _ IH _ _ _ _ _ H) as (kvs & -> & Hsz). cbn [rev app]. lia. }
+    destruct ((c =? 45) || is_dig c); [|discriminate].
+    destruct (json_number (c :: r)) as [lit isint r1| |] eqn:En; try discriminate.
+    destruct (json_num_value pf lit isint); [|discriminate]. inversion H; subst.
+    apply json_number_len in En. cbn [Cbor.ComposeProofs.cv_size length] in *. lia.
+  Qed.
+End JsonSize.
+
+Theorem json_decode_lim : forall pf b v rest, json_decode pf b = RValue v rest ->
+  (zlen b <=? MaxInt64) = true -> cv_lim (2 ^ 63) v = true.
+Proof.
+  intros pf b v rest H Hsz. unfold json_decode in H.
+  destruct (json_ref pf (S (length b)) b) as [v0 r| | |] eqn:E; try discriminate.
+  destruct (skip_ws r); [|discriminate]. inversion H; subst.
+  apply json_ref_size in E. apply (size_lim v (length b)); [lia|].
+  unfold Cbor.ConformanceProofs.MaxInt64, zlen in Hsz. lia.
+Qed.
+Print Assumptions json_decode_lim.
+
+(* ====================================================================== *)
+(* Part 5: C08 - parser connected to encoder, pairs without JSON            *)
+(* ====================================================================== *)
+(* Generic shape: the source reference decoder accepts the document b with
+   value v; then the source parser accepts b, its events are the events of a
+   well-formed tree t' with cv (value_of t') = v, and the target encoder
+   model, fed these events, writes a document that the target reference
+   decoder reads as the target image of t' (CBOR: v itself; UBJSON: ubj_img
+   t'; JSON: json_img t').  The size side conditions of the target encoder
+   theorems are derived from the length of the source document. *)
+
+Lemma stream_is_flatten evs t : stream_tree evs = Some t -> evs = flatten t.
+Proof. intro H. apply stream_tree_iff in H. tauto. Qed.
+
+Lemma cbor_chunks cs b : concat cs = b -> all_bytes b = true -> run_chunks None cs = run_parse None b.
+Proof. intros <- Hb. apply Cbor.ComposeProofs.chunks_as_parse. exact Hb. Qed.
+
+(* ---------- CBOR -> UBJSON ---------- *)
+Theorem C08_cbor_ubj : forall b v, all_bytes b = true -> (zlen b <=? MaxInt64) = true ->
+  cbor_decode b = RValue v [] ->
+  forall cs, concat cs = b ->
+  exists t' out, run_chunks None cs = Ok (flatten t', nilE) /\
+    wf_tree t' = true /\ cv (value_of t') = v /\
+    ubj_encode (flatten t') = Some out /\ ubj_decode out = RValue (ubj_img t') [].
+Proof.
+  intros b v Hb Hsz Hd cs Hc.
+  destruct (Cbor.ConformanceProofs.C05_accept b v Hb Hsz Hd) as (evs & t & Hrun & Hst & Hwf & Hcv).
+  apply stream_is_flatten in Hst. subst evs.
+  assert (Hsm : ubj_small t = true).
+  { apply (lim_ubj_small t (2 ^ 63)); [lia|exact Hwf|]. rewrite Hcv. eapply cbor_decode_lim; eassumption. }
+  destruct (Ubjson.RoundtripProofs.C07_ubj t Hwf Hsm) as (out & E & D).
+  exists t, out. rewrite (cbor_chunks cs b Hc Hb). auto.
+Qed.
+Print Assumptions C08_cbor_ubj.
+
+(* ---------- UBJSON -> CBOR ---------- *)
+Theorem C08_ubj_cbor : forall b v, all_bytes b = true -> (zlen b <=? MaxInt64) = true ->
+  no_huge_zero_typed b = true -> ubj_decode b = RValue v [] ->
+  exists t' p out, urun_parse None b = Ok (flatten t', unilE, p) /\
+    wf_tree t' = true /\ cv (value_of t') = v /\
+    cbor_encode (flatten t') = Some out /\ cbor_decode out = RValue v [] /\
+    forall cs r, concat cs = b -> urun_chunks None cs = Ok r -> fst r = (flatten t', unilE).
+Proof.
+  intros b v Hb Hsz Hz Hd.
+  destruct (Ubjson.ConformanceProofs.C06_accept b v Hb Hsz Hz Hd) as (evs & t & p & Hrun & Hst & Hwf & Hcv).
+  apply stream_is_flatten in Hst. subst evs.
+  assert (Hsm : cbor_small t = true).
+  { apply (lim_cbor_small t (2 ^ 63)); [lia|exact Hwf|]. rewrite Hcv. eapply ubj_decode_lim; eassumption. }
+  destruct (Cbor.RoundtripProofs.C07_cbor t Hwf Hsm) as (out & E & D).
+  exists t, p, out. rewrite Hcv in D. repeat (split; [assumption|]).
+  intros cs r Hc Hr. rewrite <- Hc in Hrun.
+  pose proof (Ubjson.ChunkProofs.C02_ubj_entry_strong None cs _ _ Hrun Hr) as Hfst.
+  cbn [fst] in Hfst. symmetry. exact Hfst.
+Qed.
+Print Assumptions C08_ubj_cbor.
+
+(* ---------- UBJSON -> UBJSON ---------- *)
+Theorem C08_ubj_ubj : forall b v, all_bytes b = true -> (zlen b <=? MaxInt64) = true ->
+  no_huge_zero_typed b = true -> ubj_decode b = RValue v [] ->
+  exists t' p out, urun_parse None b = Ok (flatten t', unilE, p) /\
+    wf_tree t' = true /\ cv (value_of t') = v /\
+    ubj_encode (flatten t') = Some out /\ ubj_decode out = RValue (ubj_img t') [] /\
+    forall cs r, concat cs = b -> urun_chunks None cs = Ok r -> fst r = (flatten t', unilE).
+Proof.
+  intros b v Hb Hsz Hz Hd.
+  destruct (Ubjson.ConformanceProofs.C06_accept b v Hb Hsz Hz Hd) as (evs & t & p & Hrun & Hst & Hwf & Hcv).
+  apply stream_is_flatten in Hst. subst evs.
+  assert (Hsm : ubj_small t = true).
+  { apply (lim_ubj_small t (2 ^ 63)); [lia|exact Hwf|]. rewrite Hcv. eapply ubj_decode_lim; eassumption. }
+  destruct (Ubjson.RoundtripProofs.C07_ubj t Hwf Hsm) as (out & E & D).
+  exists t, p, out. repeat (split; [assumption|]).
+  intros cs r Hc Hr. rewrite <- Hc in Hrun.
+  pose proof (Ubjson.ChunkProofs.C02_ubj_entry_strong None cs _ _ Hrun Hr) as Hfst.
+  cbn [fst] in Hfst. symmetry. exact Hfst.
+Qed.
+Print Assumptions C08_ubj_ubj.
+
+(* ---------- finiteness of the floats of a value (side condition of the JSON encoder) ---------- *)
+Definition cnum_finite (n : cnum) : bool :=
+  match n with
+  | CF32 bits => negb (nonfinite 32 bits)
+  | CF64 bits => negb (nonfinite 64 bits)
+  | CInt _ => true
+  end.
+
+Fixpoint cv_finite (v : cvalue) : bool :=
+  match v with
+  | CNum n => cnum_finite n
+  | CArr vs => forallb cv_finite vs
+  | CObj kvs => forallb (fun kv => cv_finite (snd kv)) kvs
+  | _ => true
+  end.
+
+Lemma scalar_finite_cv s : cv_finite (cv (scalar_value s)) = true -> Json.EncProofs.scalar_finite s = true.
+Proof. destruct s as [|b|s|k z]; try reflexivity. destruct k; try reflexivity; intro H; exact H. Qed.
+
+Lemma tree_finite_cv : forall t, cv_finite (cv (value_of t)) = true -> tree_finite t = true.
+Proof.
+  induction t as [s r|len bt es IH|len bt ms IH|bt es|bt ms] using tree_ind'; intro H.
+  - apply scalar_finite_cv. exact H.
+  - cbn [value_of cv cv_finite Json.EncProofs.tree_finite] in *. rewrite map_map, forallb_map in H.
+    apply forallb_forall. intros x Hx. rewrite Forall_forall in IH. apply IH; [exact Hx|].
+    eapply forallb_In in H; [|exact Hx]. exact H.
+  - cbn [value_of cv cv_finite Json.EncProofs.tree_finite] in *. rewrite map_map, forallb_map in H.
+    apply forallb_forall. intros m Hm. rewrite Forall_forall in IH. apply IH; [exact Hm|].
+    eapply forallb_In in H; [|exact Hm]. exact H.
+  - cbn [value_of cv cv_finite Json.EncProofs.tree_finite] in *. rewrite map_map, forallb_map in H.
+    apply forallb_forall. intros x Hx. apply scalar_finite_cv. eapply forallb_In in H; [|exact Hx]. exact H.
+  - cbn [value_of cv cv_finite Json.EncProofs.tree_finite] in *. rewrite map_map, forallb_map in H.
+    apply forallb_forall. intros m Hm. apply scalar_finite_cv. eapply forallb_In in H; [|exact Hm]. exact H.
+Qed.
+(* ====================================================================== *)
+(* Part 4: JSON - output bytes, C01, C09, C17                               *)
+(* ====================================================================== *)
+Section JsonCompose.
+  Import Json.EncProofs Json.RoundtripProofs.
+
+  Variable ffmt : Z -> Z -> bytes.        (* strconv.AppendFloat(_, f, 'g', -1, w) on the bit pattern *)
+  Variable pf : bytes -> option Z.         (* strconv.ParseFloat(_, 64) as bits; None = range error *)
+  Variable fimg : Z -> Z -> cnum.          (* what the reference reads the text of a finite float as *)
+  Variable fbits_r : Z -> Z -> Z.          (* bits ParseFloat returns for the text with ".0" inserted *)
+
+  (* the hypotheses of Json/RoundtripProofs.v (JsonRTStrconv) ... *)
+  Hypothesis ffmt_number : forall w bits, w = 32 \/ w = 64 -> in_u w bits = true ->
+    nonfinite w bits = false ->
+    exists isint, json_number (ffmt w bits) = NumOk (ffmt w bits) isint [] /\
+                  json_num_value pf (ffmt w bits) isint = Some (fimg w bits).
+  Hypothesis ffmt_chars : forall w bits, w = 32 \/ w = 64 -> in_u w bits = true ->
+    nonfinite w bits = false -> Forall (fun c => In c fchars) (ffmt w bits).
+  Hypothesis pf_radix : forall w bits, w = 32 \/ w = 64 -> in_u w bits = true ->
+    nonfinite w bits = false -> snd (radix_scan (ffmt w bits) 0) = true ->
+    pf (radix_patch (ffmt w bits)) = Some (fbits_r w bits).
+  (* ... and of Json/SpecProofs.v: ParseFloat returns 64-bit patterns *)
+  Hypothesis pf_ok : forall l z, pf l = Some z -> in_u 64 z = true.
+
+  Notation jimg := (json_img ffmt fimg (fun w bits => CF64 (fbits_r w bits))).
+
+  (* ---------- the encoder output consists of bytes ---------- *)
+  (* C07_json_no_control wants the character hypothesis for every argument of
+     ffmt; the encoder calls ffmt only on finite floats of the right width, so
+     a guarded copy of ffmt writes the same text *)
+  Definition ffmt_g (w bits : Z) : bytes :=
+    if ((w =? 32) || (w =? 64)) && in_u w bits && negb (nonfinite w bits) then ffmt w bits else [48].
+
+  Lemma ffmt_g_chars : forall w b, Forall (fun c => In c fchars) (ffmt_g w b).
+  Proof.
+    intros w b. unfold ffmt_g.
+    destruct (((w =? 32) || (w =? 64)) && in_u w b && negb (nonfinite w b)) eqn:E.
+    - apply andb_true_iff in E as [E E3]. apply andb_true_iff in E as [E1 E2].
+      apply ffmt_chars; [lia|exact E2|apply negb_true_iff; exact E3].
+    - constructor; [|constructor]. unfold fchars. cbn [In]. do 3 right. left. reflexivity.
+  Qed.
+
+  Lemma float_text_g cfg w bits : w = 32 \/ w = 64 -> in_u w bits = true ->
+    float_text ffmt_g cfg w bits = float_text ffmt cfg w bits.
+  Proof.
+    intros Hw Hu. unfold float_text. destruct (nonfinite w bits) eqn:N; [reflexivity|].
+    unfold ffmt_g. rewrite N, Hu. replace ((w =? 32) || (w =? 64)) with true by lia. reflexivity.
+  Qed.
+
+  Lemma scalar_text_g cfg s : scalar_ok s = true -> scalar_text ffmt_g cfg s = scalar_text ffmt cfg s.
+  Proof.
+    destruct s as [|b|s|k z]; try reflexivity.
+    destruct k; try reflexivity; cbn [scalar_text scalar_ok nkind_ok]; intro H; apply float_text_g; auto.
+  Qed.
+
+  Lemma tree_text_g cfg : forall t, wf_tree t = true -> tree_text ffmt_g cfg t = tree_text ffmt cfg t.
+  Proof.
+    induction t as [s r|len bt es IH|len bt ms IH|bt es|bt ms] using tree_ind'; intro Hw.
+    - cbn [tree_text wf_tree] in *. apply scalar_text_g. exact Hw.
+    - rewrite wf_arr in Hw. apply andb_true_iff in Hw as [_ Hw]. cbn [tree_text]. do 3 f_equal.
+      apply map_ext_in. intros x Hx. rewrite Forall_forall in IH. apply IH; [exact Hx|eapply forallb_In; eassumption].
+    - rewrite wf_obj in Hw. apply andb_true_iff in Hw as [_ Hw]. cbn [tree_text]. do 3 f_equal.
+      apply map_ext_in. intros m Hm. rewrite Forall_forall in IH. unfold member_text.
+      eapply forallb_In in Hw; [|exact Hm]. apply andb_true_iff in Hw as [_ Hw].
+      rewrite (IH m Hm Hw). reflexivity.
+    - cbn [tree_text wf_tree] in *. do 3 f_equal. apply map_ext_in. intros x Hx.
+      apply scalar_text_g. eapply Cbor.RoundtripProofs.xelem_scalar_ok. eapply forallb_In; eassumption.
+    - cbn [tree_text wf_tree] in *. apply andb_true_iff in Hw as [_ Hw]. do 3 f_equal.
+      apply map_ext_in. intros m Hm. unfold member_text.
+      eapply forallb_In in Hw; [|exact Hm]. apply andb_true_iff in Hw as [_ Hw].
+      rewrite scalar_text_g; [reflexivity|]. eapply Cbor.RoundtripProofs.xelem_scalar_ok. exact Hw.
+  Qed.
+
+  Theorem json_out_bytes : forall cfg t e', wf_tree t = true ->
+    (ignore_invalid cfg = true \/ tree_finite t = true) ->
+    json_run cfg ffmt (jenc0 None) (flatten t) 0 = JRun e' None ->
+    all_bytes (w_bytes (je_w e')) = true.
+  Proof.
+    intros cfg t e' Hw Hfin E.
+    destruct (json_enc_tree_text ffmt cfg t Hfin (jenc0 None) 0%nat eq_refl) as (e1 & E1 & _ & _ & _ & B1).
+    rewrite E in E1. inversion E1; subst e1.
+    destruct (json_enc_tree_text ffmt_g cfg t Hfin (jenc0 None) 0%nat eq_refl) as (e2 & E2 & _ & _ & _ & B2).
+    pose proof (C07_json_no_control ffmt_g ffmt_g_chars cfg (flatten t) e2 (wf_events_ok t Hw) E2) as Hc.
+    rewrite B1. rewrite B2, tree_text_g in Hc by exact Hw.
+    apply forallb_forall. rewrite Forall_forall in Hc. intros x Hx. specialize (Hc x Hx).
+    unfold is_byte. lia.
+  Qed.
+
+  (* ---------- C01 for JSON ---------- *)
+  (* Encode a well-formed tree (non-finite floats allowed only under
+     IgnoreInvalidFloat), parse the output in ANY chunking: the parser accepts
+     and delivers a well-formed stream whose value is the JSON image of the
+     tree (json_img: invalid UTF-8 replaced by U+FFFD, floats as read back by
+     ParseFloat from the text AppendFloat wrote, NaN/Inf as null, all integers
+     exact). *)
+  Theorem C01_json : forall cfg t, wf_tree t = true ->
+    (ignore_invalid cfg = true \/ tree_finite t = true) ->
+    exists e' evs t' p,
+      json_run cfg ffmt (jenc0 None) (flatten t) 0 = JRun e' None /\
+      all_bytes (w_bytes (je_w e')) = true /\
+      jrun_parse pf None (w_bytes (je_w e')) = Ok (evs, jpnil, p) /\
+      stream_tree evs = Some t' /\ wf_tree t' = true /\ cv (value_of t') = jimg cfg t /\
+      forall cs, concat cs = w_bytes (je_w e') -> exists p', jrun_chunks pf None cs = Ok (evs, jpnil, p').
+  Proof.
+    intros cfg t Hw Hfin.
+    destruct (C07_json_strconv ffmt pf fimg fbits_r ffmt_number ffmt_chars pf_radix cfg t Hw Hfin) as (e' & E & D).
+    pose proof (json_out_bytes cfg t e' Hw Hfin E) as Hb.
+    destruct (Json.SpecProofs.C04_accept pf _ _ pf_ok D Hb) as (evs & t' & p & Hrun & Hst & Hwf & Hcv).
+    exists e', evs, t', p. repeat (split; [assumption|]).
+    intros cs Hc. pose proof (Json.ChunkProofs.C02_json_entry pf None cs) as H.
+    rewrite Hc, Hrun in H. destruct (jrun_chunks pf None cs) as [[[ev2 e2] p2]| | |]; try contradiction.
+    cbn [Json.ChunkProofs.same_jobs] in H. destruct H as [<- <-]. exists p2. reflexivity.
+  Qed.
+
+  (* ---------- chunk independence of an accepted Parse ---------- *)
+  Lemma json_chunks_same b evs p : jrun_parse pf None b = Ok (evs, jpnil, p) ->
+    forall cs, concat cs = b -> exists p', jrun_chunks pf None cs = Ok (evs, jpnil, p').
+  Proof.
+    intros Hrun cs Hc. pose proof (Json.ChunkProofs.C02_json_entry pf None cs) as H.
+    rewrite Hc, Hrun in H. destruct (jrun_chunks pf None cs) as [[[ev2 e2] p2]| | |]; try contradiction.
+    cbn [Json.ChunkProofs.same_jobs] in H. destruct H as [<- <-]. exists p2. reflexivity.
+  Qed.
+
+  (* what C04 gives for an accepted document, with the events as a tree *)
+  Lemma json_accept_tree b v : all_bytes b = true -> json_decode pf b = RValue v [] ->
+    exists t p, jrun_parse pf None b = Ok (flatten t, jpnil, p) /\ wf_tree t = true /\ cv (value_of t) = v.
+  Proof.
+    intros Hb Hd. destruct (Json.SpecProofs.C04_accept_events pf b v pf_ok Hd Hb) as (t & p & Hrun & _ & Hw & Hv).
+    eauto.
+  Qed.
+
+  (* ---------- C08, JSON as the source ---------- *)
+  Theorem C08_json_cbor : forall b v, all_bytes b = true -> (zlen b <=? MaxInt64) = true ->
+    json_decode pf b = RValue v [] ->
+    exists t' p out, jrun_parse pf None b = Ok (flatten t', jpnil, p) /\
+      wf_tree t' = true /\ cv (value_of t') = v /\
+      cbor_encode (flatten t') = Some out /\ cbor_decode out = RValue v [] /\
+      forall cs, concat cs = b -> exists p', jrun_chunks pf None cs = Ok (flatten t', jpnil, p').
+  Proof.
+    intros b v Hb Hsz Hd. destruct (json_accept_tree b v Hb Hd) as (t & p & Hrun & Hwf & Hcv).
+    assert (Hsm : cbor_small t = true).
+    { apply (lim_cbor_small t (2 ^ 63)); [lia|exact Hwf|]. rewrite Hcv. eapply json_decode_lim; eassumption. }
+    destruct (Cbor.RoundtripProofs.C07_cbor t Hwf Hsm) as (out & E & D).
+    exists t, p, out. rewrite Hcv in D. repeat (split; [assumption|]).
+    eapply json_chunks_same. exact Hrun.
+  Qed.
+
+  Theorem C08_json_ubj : forall b v, all_bytes b = true -> (zlen b <=? MaxInt64) = true ->
+    json_decode pf b = RValue v [] ->
+    exists t' p out, jrun_parse pf None b = Ok (flatten t', jpnil, p) /\
+      wf_tree t' = true /\ cv (value_of t') = v /\
+      ubj_encode (flatten t') = Some out /\ ubj_decode out = RValue (ubj_img t') [] /\
+      forall cs, concat cs = b -> exists p', jrun_chunks pf None cs = Ok (flatten t', jpnil, p').
+  Proof.
+    intros b v Hb Hsz Hd. destruct (json_accept_tree b v Hb Hd) as (t & p & Hrun & Hwf & Hcv).
+    assert (Hsm : ubj_small t = true).
+    { apply (lim_ubj_small t (2 ^ 63)); [lia|exact Hwf|]. rewrite Hcv. eapply json_decode_lim; eassumption. }
+    destruct (Ubjson.RoundtripProofs.C07_ubj t Hwf Hsm) as (out & E & D).
+    exists t, p, out. repeat (split; [assumption|]).
+    eapply json_chunks_same. exact Hrun.
+  Qed.
+
+  (* ---------- C08, JSON as the target ---------- *)
+  (* The JSON encoder refuses NaN / Inf unless IgnoreInvalidFloat is set; CBOR
+     and UBJSON documents can carry them (and so can a JSON document if the
+     oracle pf returns such bits): the premise is stated on the value. *)
+  Lemma json_target cfg t v : wf_tree t = true -> cv (value_of t) = v ->
+    (ignore_invalid cfg = true \/ cv_finite v = true) ->
+    exists e', json_run cfg ffmt (jenc0 None) (flatten t) 0 = JRun e' None /\
+      all_bytes (w_bytes (je_w e')) = true /\
+      json_decode pf (w_bytes (je_w e')) = RValue (jimg cfg t) [].
+  Proof.
+    intros Hwf Hcv Hfin.
+    assert (Hfin' : ignore_invalid cfg = true \/ tree_finite t = true).
+    { destruct Hfin as [H|H]; [left; exact H|right]. apply tree_finite_cv. rewrite Hcv. exact H. }
+    destruct (C07_json_strconv ffmt pf fimg fbits_r ffmt_number ffmt_chars pf_radix cfg t Hwf Hfin') as (e' & E & D).
+    exists e'. split; [exact E|]. split; [|exact D]. eapply json_out_bytes; eassumption.
+  Qed.
+
+  Theorem C08_cbor_json : forall cfg b v, all_bytes b = true -> (zlen b <=? MaxInt64) = true ->
+    cbor_decode b = RValue v [] -> (ignore_invalid cfg = true \/ cv_finite v = true) ->
+    forall cs, concat cs = b ->
+    exists t' e', run_chunks None cs = Ok (flatten t', nilE) /\
+      wf_tree t' = true /\ cv (value_of t') = v /\
+      json_run cfg ffmt (jenc0 None) (flatten t') 0 = JRun e' None /\
+      all_bytes (w_bytes (je_w e')) = true /\
+      json_decode pf (w_bytes (je_w e')) = RValue (jimg cfg t') [].
+  Proof.
+    intros cfg b v Hb Hsz Hd Hfin cs Hc.
+    destruct (Cbor.ConformanceProofs.C05_accept b v Hb Hsz Hd) as (evs & t & Hrun & Hst & Hwf & Hcv).
+    apply stream_is_flatten in Hst. subst evs.
+    destruct (json_target cfg t v Hwf Hcv Hfin) as (e' & E & Hob & D).
+    exists t, e'. rewrite (cbor_chunks cs b Hc Hb). auto 7.
+  Qed.
+
+  Theorem C08_ubj_json : forall cfg b v, all_bytes b = true -> (zlen b <=? MaxInt64) = true ->
+    no_huge_zero_typed b = true -> ubj_decode b = RValue v [] ->
+    (ignore_invalid cfg = true \/ cv_finite v = true) ->
+    exists t' p e', urun_parse None b = Ok (flatten t', unilE, p) /\
+      wf_tree t' = true /\ cv (value_of t') = v /\
+      json_run cfg ffmt (jenc0 None) (flatten t') 0 = JRun e' None /\
+      all_bytes (w_bytes (je_w e')) = true /\
+      json_decode pf (w_bytes (je_w e')) = RValue (jimg cfg t') [] /\
+      forall cs r, concat cs = b -> urun_chunks None cs = Ok r -> fst r = (flatten t', unilE).
+  Proof.
+    intros cfg b v Hb Hsz Hz Hd Hfin.
+    destruct (Ubjson.ConformanceProofs.C06_accept b v Hb Hsz Hz Hd) as (evs & t & p & Hrun & Hst & Hwf & Hcv).
+    apply stream_is_flatten in Hst. subst evs.
+    destruct (json_target cfg t v Hwf Hcv Hfin) as (e' & E & Hob & D).
+    exists t, p, e'. repeat (split; [assumption|]).
+    intros cs r Hc Hr. rewrite <- Hc in Hrun.
+    pose proof (Ubjson.ChunkProofs.C02_ubj_entry_strong None cs _ _ Hrun Hr) as Hfst.
+    cbn [fst] in Hfst. symmetry. exact Hfst.
+  Qed.
+
+  Theorem C08_json_json : forall cfg b v, all_bytes b = true ->
+    json_decode pf b = RValue v [] -> (ignore_invalid cfg = true \/ cv_finite v = true) ->
+    exists t' p e', jrun_parse pf None b = Ok (flatten t', jpnil, p) /\
+      wf_tree t' = true /\ cv (value_of t') = v /\
+      json_run cfg ffmt (jenc0 None) (flatten t') 0 = JRun e' None /\
+      all_bytes (w_bytes (je_w e')) = true /\
+      json_decode pf (w_bytes (je_w e')) = RValue (jimg cfg t') [] /\
+      forall cs, concat cs = b -> exists p', jrun_chunks pf None cs = Ok (flatten t', jpnil, p').
+  Proof.
+    intros cfg b v Hb Hd Hfin. destruct (json_accept_tree b v Hb Hd) as (t & p & Hrun & Hwf & Hcv).
+    destruct (json_target cfg t v Hwf Hcv Hfin) as (e' & E & Hob & D).
+    exists t, p, e'. repeat (split; [assumption|]).
+    eapply json_chunks_same. exact Hrun.
+  Qed.
+
+  (* the re-encoded JSON document is accepted by the parser again, in any
+     chunking, with the image as its value: parse . encode . parse *)
+  Theorem C08_json_reparse : forall cfg b v, all_bytes b = true ->
+    json_decode pf b = RValue v [] -> (ignore_invalid cfg = true \/ cv_finite v = true) ->
+    exists t' p e' t2 p2, jrun_parse pf None b = Ok (flatten t', jpnil, p) /\
+      json_run cfg ffmt (jenc0 None) (flatten t') 0 = JRun e' None /\
+      jrun_parse pf None (w_bytes (je_w e')) = Ok (flatten t2, jpnil, p2) /\
+      wf_tree t2 = true /\ cv (value_of t2) = jimg cfg t' /\ cv (value_of t') = v.
+  Proof.
+    intros cfg b v Hb Hd Hfin.
+    destruct (C08_json_json cfg b v Hb Hd Hfin) as (t & p & e' & Hrun & Hwf & Hcv & E & Hob & D & _).
+    destruct (json_accept_tree _ _ Hob D) as (t2 & p2 & Hrun2 & Hwf2 & Hcv2).
+    exists t, p, e', t2, p2. auto 8.
+  Qed.
+
+  (* ---------- C09 for the JSON parser ---------- *)
+  (* On every document the reference accepts, the calls the parser makes on
+     the visitor satisfy the contract monitor - also when the input arrives
+     in chunks. *)
+  Theorem C09_json_parser : forall b v, all_bytes b = true -> json_decode pf b = RValue v [] ->
+    exists evs p, jrun_parse pf None b = Ok (evs, jpnil, p) /\ contract_ok evs = true /\
+      forall cs, concat cs = b -> exists p', jrun_chunks pf None cs = Ok (evs, jpnil, p').
+  Proof.
+    intros b v Hb Hd. destruct (json_accept_tree b v Hb Hd) as (t & p & Hrun & Hwf & _).
+    exists (flatten t), p. split; [exact Hrun|]. split; [rewrite contract_flatten; exact Hwf|].
+    eapply json_chunks_same. exact Hrun.
+  Qed.
+
+  (* the same for every whitespace-separated stream of documents the
+     reference accepts: one contract-conforming value per document *)
+  Theorem C09_json_parser_stream : forall fuel b vs, all_bytes b = true ->
+    json_decode_all pf fuel b = Some vs ->
+    exists ts p, jrun_parse pf None b = Ok (flat_map flatten ts, jpnil, p) /\
+      Forall (fun t => contract_ok (flatten t) = true) ts /\
+      map (fun t => cv (value_of t)) ts = vs /\
+      forall cs, concat cs = b -> exists p', jrun_chunks pf None cs = Ok (flat_map flatten ts, jpnil, p').
+  Proof.
+    intros fuel b vs Hb Hd.
+    destruct (Json.SpecProofs.C04_accept_stream pf fuel b vs pf_ok Hd Hb) as (ts & p & Hrun & _ & Hwf & Hvs).
+    exists ts, p. split; [exact Hrun|]. split.
+    { apply Forall_forall. intros t Ht. rewrite contract_flatten. eapply forallb_In; eassumption. }
+    split; [exact Hvs|]. eapply json_chunks_same. exact Hrun.
+  Qed.
+
+  (* C08 for streams with JSON as the source and CBOR as the target: the
+     re-encoded stream carries the same sequence of values *)
+  Theorem C08_json_cbor_stream : forall fuel b vs, all_bytes b = true -> (zlen b <=? MaxInt64) = true ->
+    json_decode_all pf fuel b = Some vs ->
+    Forall (fun v => cv_lim (2 ^ 64) v = true) vs ->
+    exists ts p out, jrun_parse pf None b = Ok (flat_map flatten ts, jpnil, p) /\
+      cbor_encode (flat_map flatten ts) = Some out /\
+      cbor_decode_all (S (length out)) out = Some vs.
+  Proof.
+    intros fuel b vs Hb Hsz Hd Hlim.
+    destruct (Json.SpecProofs.C04_accept_stream pf fuel b vs pf_ok Hd Hb) as (ts & p & Hrun & _ & Hwf & Hvs).
+    assert (Hsm : forallb cbor_small ts = true).
+    { apply forallb_forall. intros t Ht. apply (lim_cbor_small t (2 ^ 64)); [lia|eapply forallb_In; eassumption|].
+      rewrite Forall_forall in Hlim. apply Hlim. rewrite <- Hvs. apply in_map_iff. eauto. }
+    destruct (Cbor.RoundtripProofs.C07_cbor_stream ts Hwf Hsm) as (out & E & D).
+    exists ts, p, out. rewrite Hvs in D. auto.
+  Qed.
+End JsonCompose.
+Print Assumptions json_out_bytes.
+Print Assumptions C01_json.
+Print Assumptions C08_json_cbor.
+Print Assumptions C08_json_ubj.
+Print Assumptions C08_cbor_json.
+Print Assumptions C08_ubj_json.
+Print Assumptions C08_json_json.
+Print Assumptions C08_json_reparse.
+Print Assumptions C09_json_parser.
+Print Assumptions C09_json_parser_stream.
+Print Assumptions C08_json_cbor_stream.
